@@ -172,6 +172,23 @@ def class_menu(D: int, tier: str):
     out.append({"cls": "MultiLevel", "members": [{"cls": "FreeFormDeformation", "stride": 2}, {"cls": "DisplacementFieldTransform"}]})
     out.append({"cls": "MultiLevel", "members": [{"cls": "EulerRotation"}, {"cls": "AnisotropicScaling"}]})
     out.append({"cls": "MultiLevel", "members": [{"cls": "Translation"}, {"cls": "EulerRotation"}]})
+    # composites with 3 and 4 members: all-linear, mixed linear/dense, all-dense; both member orders where order matters
+    T, R, S, K, I = ({"cls": "Translation"}, {"cls": "EulerRotation"}, {"cls": "AnisotropicScaling"}, {"cls": "Shearing"}, {"cls": "IsotropicScaling"})
+    DDF, DDF2, SVF, SVF2 = ({"cls": "DisplacementFieldTransform"}, {"cls": "DisplacementFieldTransform", "alt": 1},
+                            {"cls": "StationaryVelocityFieldTransform"}, {"cls": "StationaryVelocityFieldTransform", "alt": 2})
+    for members in ([T, R, S], [R, K, T, I]):
+        out.append({"cls": "MultiLevel", "members": members})
+    for members in ([T, R, S], [S, K, R, T]):
+        out.append({"cls": "Sequential", "members": members})
+        out.append({"cls": "Sequential", "members": members[::-1]})
+    for members in ([T, DDF, R], [DDF, S, SVF, T]):
+        out.append({"cls": "MultiLevel", "members": members})
+        out.append({"cls": "Sequential", "members": members})
+        out.append({"cls": "Sequential", "members": members[::-1]})
+    for members in ([DDF, SVF, DDF2], [SVF, DDF, SVF2, DDF2]):
+        out.append({"cls": "MultiLevel", "members": members})
+        out.append({"cls": "Sequential", "members": members})
+        out.append({"cls": "Sequential", "members": members[::-1]})
     # generic configurable transform
     for transform, model in (("Affine", "TRS"), ("Affine", "T o R o S"), ("Affine", "A"), ("Affine", "SRT"), ("Affine o SVF", "TRS"),
                              ("FFD o Affine", "TRS"), ("SVF", "TRS"), ("Affine o DDF", "A")):
@@ -211,7 +228,7 @@ def family(desc) -> str:
 def label(desc) -> str:
     cls = desc["cls"]
     if cls in SHORT:
-        s = SHORT[cls]
+        s = SHORT[cls] + ("'" if desc.get("alt") else "")
         if "stride" in desc:
             s += f"[stride={desc['stride']}" + (",noresize" if desc.get("resize") is False else "") + (",transpose" if desc.get("transpose") else "") + "]"
         return s
@@ -243,8 +260,10 @@ def configs(tier: str, seed: int):
                             k += 1
                             if tier == "quick":
                                 # deterministic thinning: every value of every factor and every pair (grid, pm),
-                                # (N, kind) is kept for every class; the full product is the thorough tier
-                                if (gi + (0 if N == 1 else 1) + (0 if kind == "param" else 1) + pms.index(pm) + ci) % 3 != 0:
+                                # (N, kind) is kept for every class; the full product is the thorough tier.
+                                # Composites with >= 3 members and the explicit 3-D Euler orders keep every 6th entry.
+                                mod = 6 if (len(desc.get("members", [])) >= 3 or (desc["cls"] == "EulerRotation" and desc.get("order"))) else 3
+                                if (gi + (0 if N == 1 else 1) + (0 if kind == "param" else 1) + pms.index(pm) + ci) % mod != 0:
                                     continue
                             out.append({"D": D, "desc": desc, "grid": g, "N": N, "kind": kind, "pm": pm, "seed": seed})
     return out
